@@ -23,6 +23,30 @@ JAR = "/opt/veriftools/tla/tla2tools.jar:/opt/veriftools/tla/CommunityModules-de
 PY = "/venv/bin/python"
 
 
+TRACE_RESULT_KEYS = ("res", "ans", "probes", "num", "read", "members", "sym", "bm", "b", "ok")
+
+
+def selftest_trace(path, mode):
+    """Self-test of the binding (VERIF_SELFTEST=corrupt|drop): falsify one recorded field of, or remove, an event in the middle of
+    every recorded trace before TLC validates it.  The check must then report a violation (exit 1)."""
+    from .tlaval import mutate
+    data = json.load(open(path))
+    tr = data["trace"]
+    if len(tr) < 3:
+        return
+    k = len(tr) // 2
+    if mode == "drop":
+        del tr[k]
+    else:
+        for i in list(range(k, len(tr))) + list(range(k)):
+            key = next((x for x in TRACE_RESULT_KEYS if x in tr[i]), None)
+            if key:
+                tr[i][key] = mutate(tr[i][key])
+                break
+    with open(path, "w") as fh:
+        json.dump(data, fh)
+
+
 class MachineryError(Exception):
     """Something in the pipeline did not run: never a verdict."""
 
@@ -122,6 +146,8 @@ class Check:
         e.pop("JAVA_TOOL_OPTIONS", None)
         if env:
             e.update(env)
+        if os.environ.get("VERIF_SELFTEST") in ("corrupt", "drop") and env and "TRACE_FILE" in env:
+            selftest_trace(env["TRACE_FILE"], os.environ["VERIF_SELFTEST"])
         t = time.time()
         try:
             p = subprocess.run(cmd, cwd=wd, env=e, capture_output=True, text=True, timeout=timeout)
